@@ -39,6 +39,22 @@ ASSUMPTIONS = [
     "overflow (precision + 1, 1 << (num_rounds + 1), 3 * n + 1)",
     "clean_divide is specified for clean divisions only (the documented precondition); for an unclean division the result "
     "is profile dependent (debug_assert) and outside the property",
+    "PROVED IN FULL (props/C09.v): divide/Div/Rem/reduce_long_division = THE quotient and remainder for every non-zero divisor, "
+    "uniqueness, panic iff zero divisor; reduce and fast_reduce = THE remainder through every arm and all three stages "
+    "(reduce_by_ntt_friendly_modulus, reduce_by_structured_modulus, long division; under the C06 hypotheses on ntt/intt and the "
+    "size bounds that the transforms fit below 2^lmax), zero modulus panics; xgcd (total, Bezout, greatest common divisor, monic "
+    "or zero); formal_power_series_inverse_minimal for every precision; structured_multiple_of_degree (multiple, monic, degree "
+    "exactly n, lower part of degree < deg f, n + 1 stored coefficients; under the C06 hypotheses through C07's multiply) with "
+    "its panics and the constant case; clean_divide: long-division arm for every cutoff, the fallback of the NTT arm, totality of "
+    "the root-0 workaround, zero divisor",
+    "PARTIAL (full statements kept as Definitions C09_clean_divide_full, C09_fpsi_newton_full): clean_divide - not proved: the "
+    "zero-free NTT arm (pointwise codeword division on the coset, inverse transform, unscaling, unlift). "
+    "formal_power_series_inverse_newton - proved: constant case and every precision whose rounds all run before the switch to "
+    "the NTT domain; not proved: the NTT-domain rounds (they additionally need wr(l+1)^2 = wr(l) for the step_by subsampling of "
+    "the transform). Both partial parts are covered by the correspondence run against the zarith spec (SPECDIFF) on the grid",
+    "two clean_divide defects found by this check were repaired in /repo (87d4e9b, 8b5e451); the historical refutations are the "
+    "labelled lemmas C09_clean_divide_v0_refuted / C09_clean_divide_v1_empty_dividend_refuted about the `_v0` / `_v1` models; the "
+    "replay inputs are regression cases in corpus/C09/findings.txt",
 ]
 RULE = ("(dividend degree, divisor degree) around (4d, d) for d in {1,2,127,128,129,255,256,257,511,512,513} (+1023..1025 "
         "thorough) for divide / reduce / fast_reduce / rem / div, both fields; divisors with root 0 and double root 0; divisors "
